@@ -271,3 +271,11 @@ Proof. decide equality; [apply dval_eq_dec|apply N.eq_dec]. Qed.
 
 Lemma option_N_eq_dec (a b : option N) : {a = b} + {a <> b}.
 Proof. decide equality. apply N.eq_dec. Qed.
+
+Lemma delN_all l : forall a, (forall x, In x a -> In x l) -> fold_left (fun a t => delN t a) l a = [].
+Proof.
+  induction l as [|t l IH]; intros a Ha; cbn [fold_left].
+  - destruct a as [|x a]; [reflexivity|]. destruct (Ha x); now left.
+  - apply IH. intros x Hx. apply in_delN in Hx. destruct Hx as [Hx Hn].
+    destruct (Ha x Hx) as [E|H]; [congruence|exact H].
+Qed.
